@@ -796,6 +796,18 @@ func (e *Env) call(n *ECall) TV {
 			e.fail("has() on non-map %s", m.Ty)
 		}
 		return TV{S: vc.mapHas(e.st, mt, m.S, k.S), Sort: sBool, Ty: boolT}
+	case "entry":
+		// entry(p): the value parameter p had on entry (parameters are mutable; inside a loop
+		// invariant the plain name denotes the current value)
+		if len(n.Args) == 1 {
+			if pid, ok := n.Args[0].(*EIdent); ok {
+				if v, ok := vc.params[pid.Name]; ok {
+					return e.valTV(v)
+				}
+			}
+		}
+		e.fail("entry(<parameter>)")
+		return TV{}
 	case "dom":
 		// dom(m): the key set of a map, as a set value (compare with seenset(), store(...))
 		m := arg(0)
